@@ -426,7 +426,7 @@ pub fn d_instr(out: &mut String, i: &SemanticStackContext<HInstr>, prog_ast: &AM
             out.push_str("))");
         }
         S::ExtendedExpression(h) => {
-            write!(out, "(Ext {} {})", h.tag, h.reg).unwrap();
+            write!(out, "(Ext {} {} {})", h.tag, d_pt(&toast::sem_pt(crate::ir::ALL_PT[usize::from(h.ty)])), h.reg).unwrap();
         }
     }
 }
